@@ -1,5 +1,6 @@
 import Psa.Namespace
 import Psa.ExpectedFacts
+import Psa.StoreMachine
 /-! # C15 — admission responses are independent of other requests
 In the model, `validate` is a function of (configuration, world, request): there is no controller state for a request to
 leave behind. What makes that a faithful model of the Go code is *structural*, and is regenerated from the source on every
@@ -71,9 +72,22 @@ theorem C15_no_receiver_state :
     Generated.stateWrites.filter (fun w => w.2.1 ≠ b!"policy.RelaxPolicyForUserNamespacePods") =
     Expected.stateWrites.filter (fun w => w.2.1 ≠ b!"policy.RelaxPolicyForUserNamespacePods") := by decide
 
+/-- the store instructions of the request-handling code (everything factx found outside package initialisers) -/
+def requestStores : List StoreMachine.Instr :=
+  (Generated.responseStores.filter (fun s => !(b!"init".isPrefixOf s.2.1))).map (fun s => ⟨s.2.1, s.2.2.1, s.2.2.2⟩)
+
+/-- **The shared responses are never written by request handling**, whatever the requests and however they interleave: in
+    the store machine whose program is the regenerated list of stores to AdmissionResponse fields (admission package and
+    webhook handler), every schedule of every number of handlers leaves the shared state as it was. This is F6 turned into
+    the statement the property needs; it is re-proved against the current source on every run. -/
+theorem C15_shared_responses_never_written (s : StoreMachine.Shared) (sched : List (Nat × Nat)) :
+    StoreMachine.run requestStores s sched = s :=
+  StoreMachine.run_fresh requestStores (by decide) s sched
+
 #print axioms C15_sequence
 #print axioms C15_interleaving
 #print axioms C15_responses_fresh
 #print axioms C15_no_global_state
 #print axioms C15_no_receiver_state
+#print axioms C15_shared_responses_never_written
 end PSA.Props
